@@ -93,7 +93,7 @@ def check(run: Run) -> None:
     res = Resolver(run.project)
     am = AstModel(run.project)
     run.rule("R14.1", "exhaustive converters: every format converter has a branch for every node kind that carries keys/values (Assignment, Block, Section) or every value kind (ListValue, InlineMap, LiteralZoneValue, HolographicValue, and the plain dict a block nested in META is parsed into)", 24)
-    run.rule("R14.2", "honest lossy flag: in project(), whenever the projected document is not the input document itself, lossy is the constant True; otherwise the input document is passed through unchanged", 5)
+    run.rule("R14.2", "honest lossy flag: in project(), whenever the projected document is not the input document itself, lossy is the constant True; otherwise the input document is passed through unchanged", 3)
     run.rule("R14.3", "no invention: the projector builds nodes only with dataclasses.replace(node, children=...) / replace(doc, sections=...), appends only existing or so-rebuilt nodes and writes no field", 6)
     run.rule("R14.4", "sibling agreement: the MCP and CLI copies of each converter dispatch on the same kinds", 3)
     run.rule("R14.5", "the eject tool returns lossy / fields_omitted from the projection result and feeds every content format from the same projected document", 8)
@@ -167,6 +167,10 @@ def check(run: Run) -> None:
     pf = pj.func("project")
     pdoc = pf.node.args.args[0].arg  # type: ignore[attr-defined]
     n_res = 0
+    n_full = n_filtered = 0
+    from ..cfg import CFG
+
+    pcfg = CFG(pf.node)
     for n in walk_no_nested(pf.node):
         if isinstance(n, ast.Call) and ast.unparse(n.func) == "ProjectionResult":
             n_res += 1
@@ -175,15 +179,22 @@ def check(run: Run) -> None:
             lossy = kw.get("lossy")
             out = kw.get("output")
             same = is_name(fd, pdoc)
+            n_full += 1 if same else 0
+            n_filtered += 0 if same else 1
             if same:
                 ok = isinstance(lossy, ast.Constant) and lossy.value is False
                 # output must be emit(doc) of the same document
-                out_src = out
+                out_srcs: list[ast.AST] = [out] if out is not None else []
                 if isinstance(out, ast.Name):
-                    for a in walk_no_nested(pf.node):
-                        if isinstance(a, ast.Assign) and any(is_name(t, out.id) for t in a.targets) and a.lineno <= n.lineno:
-                            out_src = a.value
-                ok = ok and isinstance(out_src, ast.Call) and ast.unparse(out_src) == f"emit({pdoc})"
+                    # every binding of the output local that reaches this construction
+                    from ..cfg import reaching_assignments
+
+                    reach: list[ast.AST] = []
+                    for x in pcfg.node_for_stmt_containing(n):
+                        r = reaching_assignments(pcfg, x, out.id)
+                        reach = reach + r if r is not None else reach + [ast.Constant(value=None)]
+                    out_srcs = [getattr(a, "value", a) for a in reach]
+                ok = ok and bool(out_srcs) and all(isinstance(o, ast.Call) and ast.unparse(o) == f"emit({pdoc})" for o in out_srcs) and not any(isinstance(x, ast.Name) and x.id == pdoc and isinstance(x.ctx, ast.Store) for x in walk_no_nested(pf.node))
                 run.instance("R14.2", pj.loc(n), "project: full view returns the input document itself, output emit(doc), lossy=False", ok=ok)
                 if not ok:
                     run.violation("R14.2", pj, pf.qualname, n, "a non-lossy projection does not return the input document and its plain emission")
@@ -192,8 +203,8 @@ def check(run: Run) -> None:
                 run.instance("R14.2", pj.loc(n), f"project: filtered view (filtered_doc={norm(fd) if fd is not None else None}) reports lossy=True with a non-empty fields_omitted", ok=ok)
                 if not ok:
                     run.violation("R14.2", pj, pf.qualname, n, "a projection whose document is not the input document reports lossy other than the constant True (or an empty fields_omitted): a view that leaves things out claims to be complete")
-    if n_res < 4:
-        raise AnalysisError(f"project: only {n_res} ProjectionResult construction(s) found")
+    if n_full < 1 or n_filtered < 2:
+        raise AnalysisError(f"project: {n_full} full-view and {n_filtered} filtered-view ProjectionResult construction(s) found (expected >= 1 and >= 2)")
     # the keep-lists and omitted-lists are complementary constant sets
     keeps = []
     for n in walk_no_nested(pf.node):
